@@ -55,7 +55,7 @@ pub open spec fn mono<T>(a: Heap, ga: G<T>, b: Heap, gb: G<T>) -> bool {
 }
 pub open spec fn up_rel<T>(a: Heap, ga: G<T>, b: Heap, gb: G<T>, c: Cap) -> bool { true }
 
-//@include env_up.rs OP=for_each TP=T G=G<T> GNAME=G HEAP=Heap I=T
+//@include env_up.rs OP=for_each TP=T G=G<T> GNAME=G HEAP=Heap I=T SFX="" UPF=up EVGUARD=true SUBPOST=true SUBPRE=true
 
 /// `for_each(f)(source)`: the subscription itself
 #[verifier::exec_allows_no_decreases_clause]
